@@ -270,6 +270,7 @@ func runC14(c *Check) {
 		}
 	}
 	c.Floor("R14.5", "stores to LastPrunedHeight outside construction/reset", nStores, 2)
+	c14FailedSet(c)
 	// updateCheckpoint and ResetCheckpoint callers
 	for _, who := range []struct {
 		name    string
